@@ -76,6 +76,17 @@ pub fn atom_leaves(full: bool) -> Vec<OwnedTerm> {
     for s in ["error", "false", "normal", "shutdown", "infinity", "badarg", "badarith", "badmatch", "noproc", "timeout"] {
         v.push(s.into());
     }
+    // names an atom table of "well-known" atoms may plausibly single out (exit reasons, OTP and Elixir vocabulary)
+    for s in ["function_clause", "case_clause", "if_clause", "try_clause", "badfun", "badarity", "undef", "noconnection", "killed", "kill", "EXIT", "DOWN", "nodedown", "nodeup",
+        "timeout_value", "system_limit", "enomem", "not_found", "already_started", "ignore", "stop", "reply", "noreply", "hibernate", "continue", "call", "cast", "info", "terminate",
+        "code_change", "init", "handle_call", "handle_cast", "handle_info", "start_link", "name", "local", "global", "via", "trap_exit", "link", "monitor", "demonitor", "process", "port",
+        "flush", "spawn", "exit", "throw", "rex", "user", "erlang", "lists", "gen_server", "gen_event", "gen_statem", "supervisor", "application", "kernel", "stdlib", "net_kernel",
+        "badkey", "badmap", "badrecord", "nocatch", "noproc_", "bad_return_value", "badrpc", "nonode@nohost", "$gen_call", "$gen_cast", "$ancestors", "$initial_call", "alias", "eof",
+        "closed", "enoent", "eacces", "econnrefused", "einval", "yes", "no", "none", "all", "any", "self", "node", "pid", "ref", "atom", "binary", "integer", "float", "list", "tuple",
+        "map", "key", "value", "id", "type", "data", "state", "reason", "result", "message", "__struct__", "__exception__", "Elixir.String", "Elixir.Enum", "Elixir.GenServer",
+        "Elixir.Range", "Elixir.MapSet", "Elixir.Date", "Elixir.Time", "Elixir.DateTime", "Elixir.NaiveDateTime", "Elixir.ArgumentError", "Elixir.RuntimeError", "first", "last", "step"] {
+        v.push(s.into());
+    }
     if full {
         v.push("€".repeat(21845)); // exactly 65535 bytes of 3-byte characters
     }
